@@ -19,12 +19,17 @@ TOL = 1e-9
 
 # which fields of a state dump matter to which property (the trace as a whole must be accepted for all of them)
 PROJECT = {
-    'C01': lambda l: re.sub(r' (ns|nse|ee)=\d+', '', re.sub(r' lls=\S*', '', re.sub(r' bls=\S*', '', l))) if l.startswith(('SH', 'T ')) else ('' if l.startswith('ST') else l),
-    'C02': lambda l: l,
-    'C03': lambda l: re.sub(r' (ns|nse|ee)=\d+', '', l) if l.startswith('SH') else ('' if l.startswith('ST') else l),
-    'C10': lambda l: (re.sub(r' (nse|ee)=\d+', '', re.sub(r' lls=\S*', '', re.sub(r' bls=\S*', '', l))) if l.startswith('SH') else (re.sub(r' discard=\w+', '', l) if l.startswith('ST') else '')),
+    # CT (thresholds and update counters of the control layer) belongs to C10 and C12
+    'C01': lambda l: '' if l.startswith('CT') else re.sub(r' (ns|nse|ee)=\d+', '', re.sub(r' lls=\S*', '', re.sub(r' bls=\S*', '', l))) if l.startswith(('SH', 'T ')) else ('' if l.startswith('ST') else l),
+    'C02': lambda l: '' if l.startswith('CT') else l,
+    'C03': lambda l: '' if l.startswith('CT') else re.sub(r' (ns|nse|ee)=\d+', '', l) if l.startswith('SH') else ('' if l.startswith('ST') else l),
+    'C10': lambda l: (re.sub(r' (nse|ee)=\d+', '', re.sub(r' lls=\S*', '', re.sub(r' bls=\S*', '', l))) if l.startswith('SH') else (re.sub(r' discard=\w+', '', l) if l.startswith('ST') else (l if l.startswith('CT') else ''))),
     'C12': lambda l: re.sub(r' bls=\S*', '', l),
 }
+
+
+CONTROL_PROPS = ('C05', 'C10', 'C12')     # the properties the control layer (Shell2Ctl) is tied for
+PROJECT['C05'] = lambda l: l if l.startswith('CT') else ''
 
 
 def dyadic(x):
@@ -227,6 +232,8 @@ def worker(job):
     # projection for this property
     proj = PROJECT[prop]
     pdiffs = []
+    if prop not in CONTROL_PROPS:
+        rejects = [r for r in rejects if not r.startswith(('TRIGBAD', 'CTLREJECT'))]
     if rejects:
         pdiffs = [('reject', rejects[0])]
     elif diffs:
@@ -287,7 +294,7 @@ def project_all(tr, tmp, proj):
         if line == 'END':
             blocks.append(cur)
             cur = []
-        elif line and not line.startswith(('REJECT', 'DONE', 'RUNOK', 'RUNBAD')):
+        elif line and not line.startswith(('REJECT', 'DONE', 'RUNOK', 'RUNBAD', 'TRIGBAD', 'CTLREJECT')):
             cur.append(line)
     for i, (label, exp) in enumerate(tr.expected):
         got = (blocks[i] + ['END']) if i < len(blocks) else ['<missing>']
